@@ -587,6 +587,7 @@ func Property() runner.Property {
 					scenario(cfg{Kind: ki, Name: "appear+change-selector", SrcInit: []ev{{C, "ns", "w1", sel1}}, SrcHist: []ev{{U, "ns", "w1", sel2}}, DstHist: dst, Cycles: 2, Mode: "S2", Bound: d}),
 					scenario(cfg{Kind: ki, Name: "two-identical-sources,one-changes", SrcInit: []ev{{C, "ns", "w1", sel1}, {C, "ns", "w2", sel1}}, SrcHist: []ev{{U, "ns", "w2", sel2}}, DstHist: dst, Cycles: 1, Mode: "S2", Bound: d}),
 					scenario(cfg{Kind: ki, Name: "destinations-move-in-and-out", SrcInit: []ev{{C, "ns", "w1", sel1}}, DstHist: moves(k, C, U, D), Cycles: 1, Mode: "S2", Bound: d}),
+					scenario(cfg{Kind: ki, Name: "sole-source-loses-its-selector", SrcInit: []ev{{C, "ns", "w1", sel1}}, SrcHist: []ev{{U, "ns", "w1", ""}}, DstHist: dst, Cycles: 1, Mode: "S2", Bound: d}),
 					scenario(cfg{Kind: ki, Name: "second-source+disappear", SrcInit: []ev{{C, "ns", "w1", sel1}}, SrcHist: []ev{{C, "ns", "w2", sel2}, {D, "ns", "w1", sel1}}, DstHist: dst, Cycles: 1, Mode: "S2", Bound: d}),
 				)
 			}
